@@ -1,5 +1,6 @@
 import NucleoVerif.Model.Matcher
 import NucleoVerif.Spec.Matcher
+import NucleoVerif.Props.C02
 /-! # C03 — the score is the fzf scheme applied to the reported alignment
 
 The specification (`Spec.alignScore`, `Spec.specBonus`, …) is written with the documented
@@ -60,4 +61,239 @@ theorem stepSkip_rel (s : St) (t : SSt) (cls : CharClass) (h : StRel s t) :
   obtain ⟨h1, h2, h3, h4, h5⟩ := h
   simp [StRel, stepSkip, sSkip, h1, h3, PENALTY_GAP_EXTENSION, PENALTY_GAP_START]
 
+/-! ## the whole loop of `calculate_score` against the specification -/
+
+/-- the indices pushed by the loop are a prefix-extension: earlier entries are kept -/
+theorem csLoop_idx_suffix (cfg : Cfg) (ext : Ext) (hrep : Rep) :
+    ∀ (cs : List Nat) (l : CsLoop) (pos : Nat), ∃ new, (csLoop cfg ext hrep l pos cs).idxRev = new ++ l.idxRev := by
+  intro cs
+  induction cs with
+  | nil => intro l pos; exact ⟨[], rfl⟩
+  | cons c cs ih =>
+    intro l pos
+    simp only [csLoop]
+    obtain ⟨new, hn⟩ := ih (csStep cfg ext hrep l pos c) (pos + 1)
+    rcases csStep_idx cfg ext hrep l pos c with e | e
+    · exact ⟨new, by rw [hn, e]⟩
+    · exact ⟨new ++ [pos], by rw [hn, e]; simp⟩
+
+/-- which branch `csStep` takes -/
+theorem csStep_cases (cfg : Cfg) (ext : Ext) (hrep : Rep) (l : CsLoop) (pos c : Nat) :
+    ((csStep cfg ext hrep l pos c).st = stepMatch cfg l.st (charClass cfg ext c) ∧ (csStep cfg ext hrep l pos c).idxRev = pos :: l.idxRev) ∨
+    ((csStep cfg ext hrep l pos c).st = stepSkip l.st (charClass cfg ext c) ∧ (csStep cfg ext hrep l pos c).idxRev = l.idxRev) := by
+  unfold csStep
+  split
+  · left; split <;> exact ⟨rfl, rfl⟩
+  · right; exact ⟨rfl, rfl⟩
+
+/-- all intermediate values of the specification's running score stay inside the `u16` range -/
+def NoSat (white delim : Nat) (cls : Nat → CharClass) (is : List Nat) : SSt → Nat → List Nat → Prop
+  | _, _, [] => True
+  | s, col, c :: cs =>
+    let s' := if is.contains col then sMatch white delim s (cls c) else sSkip s (cls c)
+    s'.score ≤ 65535 ∧ NoSat white delim cls is s' (col + 1) cs
+
+/-- **the loop of `calculate_score` computes the scheme on the alignment it records**: the model's state
+    tracks the specification's state column by column, where "matched" is decided by membership in the
+    *final* index list -/
+theorem csLoop_rel (cfg : Cfg) (ext : Ext) (hrep : Rep) :
+    ∀ (cs : List Nat) (l : CsLoop) (pos : Nat) (t : SSt) (F : List Nat),
+      StRel l.st t → (∀ x ∈ l.idxRev, x < pos) → l.idxRev.Pairwise (· > ·) →
+      F = (csLoop cfg ext hrep l pos cs).idxRev →
+      NoSat cfg.white cfg.delim (charClass cfg ext) F.reverse t pos cs →
+      StRel (csLoop cfg ext hrep l pos cs).st (sWalk cfg.white cfg.delim (charClass cfg ext) F.reverse t pos cs) := by
+  intro cs
+  induction cs with
+  | nil => intro l pos t F h _ _ _ _; simpa [csLoop, sWalk] using h
+  | cons c cs ih =>
+    intro l pos t F hrel hlt hpw hF hsat
+    simp only [csLoop] at hF ⊢
+    simp only [sWalk]
+    simp only [NoSat] at hsat
+    -- does the final list contain `pos`?
+    have hb := csLoop_idx_bounds cfg ext hrep (pos + 1) cs
+    obtain ⟨new, hnew⟩ := csLoop_idx_suffix cfg ext hrep cs (csStep cfg ext hrep l pos c) (pos + 1)
+    rcases csStep_cases cfg ext hrep l pos c with ⟨hst, hidx⟩ | ⟨hst, hidx⟩
+    · -- matched: `pos` is in the final list
+      have hmem : F.reverse.contains pos = true := by
+        rw [hF, hnew, hidx]; simp
+      rw [hmem] at hsat ⊢
+      simp only [if_true] at hsat ⊢
+      apply ih (csStep cfg ext hrep l pos c) (pos + 1) _ F
+      · rw [hst]; exact stepMatch_rel cfg l.st t (charClass cfg ext c) hrel hsat.1
+      · intro x hx; rw [hidx] at hx; simp only [List.mem_cons] at hx
+        rcases hx with rfl | hx
+        · omega
+        · have := hlt x hx; omega
+      · rw [hidx]; exact List.pairwise_cons.mpr ⟨fun a ha => hlt a ha, hpw⟩
+      · exact hF
+      · exact hsat.2
+    · -- skipped: `pos` is not in the final list
+      have hnot : F.reverse.contains pos = false := by
+        rw [hF]
+        simp only [List.contains_reverse]
+        rw [List.contains_eq_mem]
+        simp only [decide_eq_false_iff_not]
+        intro hmem
+        rw [hnew, hidx] at hmem
+        simp only [List.mem_append] at hmem
+        rcases hmem with hm | hm
+        · -- new elements are ≥ pos + 1 … they come from positions ≥ pos + 1
+          have key : ∀ x ∈ new, pos + 1 ≤ x := by
+            -- apply the bounds lemma to a loop state with an empty index list
+            have := csLoop_idx_bounds cfg ext hrep (pos + 1) cs { (csStep cfg ext hrep l pos c) with idxRev := [] } (pos + 1)
+              (Nat.le_refl _) (by simp) (by simp)
+            -- the loop does not look at idxRev, so the new part is the same
+            intro x hx
+            have hsame : ∀ (cs : List Nat) (l1 l2 : CsLoop) (p : Nat), l1.st = l2.st → l1.needleChar = l2.needleChar → l1.rest = l2.rest →
+                ∀ n1, (csLoop cfg ext hrep l1 p cs).idxRev = n1 ++ l1.idxRev → (csLoop cfg ext hrep l2 p cs).idxRev = n1 ++ l2.idxRev := by
+              intro cs
+              induction cs with
+              | nil =>
+                intro l1 l2 p _ _ _ n1 h1
+                simp only [csLoop] at h1 ⊢
+                have hn1 : n1 = [] := by
+                  have hlen := congrArg List.length h1
+                  rw [List.length_append] at hlen
+                  exact List.length_eq_zero_iff.mp (by omega)
+                simp [hn1]
+              | cons d ds ihd =>
+                intro l1 l2 p e1 e2 e3 n1 h1
+                simp only [csLoop] at h1 ⊢
+                -- one step on both
+                have s1 : (csStep cfg ext hrep l1 p d).st = (csStep cfg ext hrep l2 p d).st ∧
+                    (csStep cfg ext hrep l1 p d).needleChar = (csStep cfg ext hrep l2 p d).needleChar ∧
+                    (csStep cfg ext hrep l1 p d).rest = (csStep cfg ext hrep l2 p d).rest ∧
+                    (((csStep cfg ext hrep l1 p d).idxRev = l1.idxRev ∧ (csStep cfg ext hrep l2 p d).idxRev = l2.idxRev) ∨
+                     ((csStep cfg ext hrep l1 p d).idxRev = p :: l1.idxRev ∧ (csStep cfg ext hrep l2 p d).idxRev = p :: l2.idxRev)) := by
+                  unfold csStep
+                  rw [e1, e2, e3]
+                  split
+                  · split <;> simp
+                  · simp
+                obtain ⟨a1, a2, a3, a4⟩ := s1
+                obtain ⟨m, hm⟩ := csLoop_idx_suffix cfg ext hrep ds (csStep cfg ext hrep l1 p d) (p + 1)
+                have := ihd _ _ (p + 1) a1 a2 a3 m hm
+                rcases a4 with ⟨b1, b2⟩ | ⟨b1, b2⟩
+                · rw [hm, b1] at h1
+                  have : m = n1 := List.append_cancel_right h1
+                  subst this
+                  rw [‹(csLoop cfg ext hrep (csStep cfg ext hrep l2 p d) (p + 1) ds).idxRev = m ++ (csStep cfg ext hrep l2 p d).idxRev›, b2]
+                · rw [hm, b1] at h1
+                  have : m ++ [p] = n1 := by
+                    apply List.append_cancel_right (bs := l1.idxRev)
+                    simpa using h1
+                  subst this
+                  rw [‹(csLoop cfg ext hrep (csStep cfg ext hrep l2 p d) (p + 1) ds).idxRev = m ++ (csStep cfg ext hrep l2 p d).idxRev›, b2]
+                  simp
+            have h2 := hsame cs (csStep cfg ext hrep l pos c) { (csStep cfg ext hrep l pos c) with idxRev := [] } (pos + 1) rfl rfl rfl new hnew
+            simp only [List.append_nil] at h2
+            rw [h2] at this
+            exact (this.1 x hx).1
+          have := key pos hm; omega
+        · have := hlt pos hm; omega
+      rw [hnot] at hsat ⊢
+      simp only [Bool.false_eq_true, if_false] at hsat ⊢
+      apply ih (csStep cfg ext hrep l pos c) (pos + 1) _ F
+      · rw [hst]; exact stepSkip_rel l.st t (charClass cfg ext c) hrel
+      · intro x hx; rw [hidx] at hx; have := hlt x hx; omega
+      · rw [hidx]; exact hpw
+      · exact hF
+      · exact hsat.2
+
+
+theorem NoSat_final (white delim : Nat) (cls : Nat → CharClass) (is : List Nat) :
+    ∀ (cs : List Nat) (s : SSt) (col : Nat), s.score ≤ 65535 → NoSat white delim cls is s col cs →
+      (sWalk white delim cls is s col cs).score ≤ 65535 := by
+  intro cs
+  induction cs with
+  | nil => intro s col h _; simpa [sWalk] using h
+  | cons c cs ih =>
+    intro s col _ hn
+    simp only [NoSat] at hn
+    simp only [sWalk]
+    exact ih _ _ hn.1 hn.2
+
+/-- "the `u16` accumulator never saturates while the scheme is applied to alignment `is`" -/
+def alignNoSat (cfg : Cfg) (ext : Ext) (h : List Nat) (is : List Nat) : Prop :=
+  match is with
+  | [] => True
+  | first :: _ =>
+    let last := is.getLast?.getD first
+    let cls := charClass cfg ext
+    let prev := if first = 0 then cfg.initial else (h[first - 1]?.map cls).getD cfg.initial
+    match h.drop first with
+    | [] => True
+    | c0 :: rest =>
+      NoSat cfg.white cfg.delim cls is (sInit cfg.white cfg.delim prev (cls c0)) (first + 1) (rest.take (last - first))
+
+theorem sInit_small (cfg : Cfg) (prev cls : CharClass) (hw : cfg.white ≤ 10) (hd : cfg.delim ≤ 10) :
+    (sInit cfg.white cfg.delim prev cls).score ≤ 65535 := by
+  cases prev <;> cases cls <;> simp [sInit, specBonus] <;> omega
+
+/-- **`calculate_score` returns exactly the fzf scheme's value of the alignment it reports** — for every
+    configuration (bonus constants ≤ 10, which all presets satisfy), haystack, needle and window
+    `[start, end)` that ends at the last matched character (every call site passes such a window), with
+    prefix preference off, as long as the `u16` accumulator does not saturate (the saturated case is
+    the known finding `score_exceeds_u16`). -/
+theorem C03_calculateScore_eq_alignScore (cfg : Cfg) (ext : Ext) (hrep : Rep) (h : List Nat) (n0 : Nat) (nrest : List Nat)
+    (start end_ : Nat) (hse : start < end_) (he : end_ ≤ h.length)
+    (hw : cfg.white ≤ 10) (hd : cfg.delim ≤ 10) (hpp : cfg.preferPrefix = false)
+    (htight : ((calculateScore cfg ext hrep h (n0 :: nrest) start end_).2.getLast?.getD start) + 1 = end_)
+    (hns : alignNoSat cfg ext h (calculateScore cfg ext hrep h (n0 :: nrest) start end_).2) :
+    (calculateScore cfg ext hrep h (n0 :: nrest) start end_).1 =
+      alignScore cfg ext h (calculateScore cfg ext hrep h (n0 :: nrest) start end_).2 := by
+  unfold calculateScore at *
+  cases hdrop : h.drop start with
+  | nil =>
+    have : (h.drop start).length = 0 := by rw [hdrop]; rfl
+    simp at this; omega
+  | cons c0 hrest =>
+    simp only [hdrop] at htight hns ⊢
+    -- the loop's final state and its index list
+    generalize hl : csRun cfg ext hrep h n0 nrest c0 hrest start end_ = l at *
+    unfold csRun at hl
+    obtain ⟨new, hnew⟩ := csLoop_idx_suffix cfg ext hrep (hrest.take (end_ - (start + 1)))
+      { st := stInit cfg (prevClassAt cfg ext h start) (charClass cfg ext c0),
+        needleChar := (needleAfterFirst n0 nrest).1, rest := (needleAfterFirst n0 nrest).2, idxRev := [start] } (start + 1)
+    rw [hl] at hnew
+    simp only at hnew
+    have hrev : l.idxRev.reverse = start :: new.reverse := by rw [hnew]; simp
+    have hlast : l.idxRev.reverse.getLast?.getD start + 1 = end_ := htight
+    -- previous class: the two formulations agree
+    have hprev : (if start = 0 then cfg.initial else (h[start - 1]?.map (charClass cfg ext)).getD cfg.initial)
+        = prevClassAt cfg ext h start := by
+      unfold prevClassAt
+      split
+      · rfl
+      · cases h[start - 1]? <;> rfl
+    have hcount : l.idxRev.reverse.getLast?.getD start - start = end_ - (start + 1) := by omega
+    -- unfold the specification on this index list
+    unfold alignScore alignNoSat at *
+    rw [hrev] at hns ⊢
+    simp only [hdrop] at hns ⊢
+    rw [← hrev] at hns ⊢
+    rw [hcount, hprev] at hns ⊢
+    have rel := csLoop_rel cfg ext hrep (hrest.take (end_ - (start + 1)))
+      { st := stInit cfg (prevClassAt cfg ext h start) (charClass cfg ext c0),
+        needleChar := (needleAfterFirst n0 nrest).1, rest := (needleAfterFirst n0 nrest).2, idxRev := [start] }
+      (start + 1) (sInit cfg.white cfg.delim (prevClassAt cfg ext h start) (charClass cfg ext c0)) l.idxRev
+      (stInit_rel cfg _ _) (by simp) (by simp) (by rw [hl]) hns
+    rw [hl] at rel
+    have hfin := NoSat_final cfg.white cfg.delim (charClass cfg ext) l.idxRev.reverse _ _ _ (sInit_small cfg _ _ hw hd) hns
+    have hp0 : prefixBonusCs cfg start = 0 := by simp [prefixBonusCs, hpp]
+    rw [hp0, Nat.add_zero, rel.1]
+    exact sat16_of_le hfin
+
+end NucleoVerif
+
+namespace NucleoVerif
+open Gen Spec
+/-- the hypotheses of `C03_calculateScore_eq_alignScore` are satisfiable: "ab" in "axb" (one gap) -/
+example :
+    let cfg : Cfg := { delims := [47], white := 10, delim := 9, initial := .whitespace, normalize := false, ignoreCase := false, preferPrefix := false }
+    let ext : Ext := fun _ => default
+    ((calculateScore cfg ext .ascii [97, 120, 98] [97, 98] 0 3).2.getLast?.getD 0) + 1 = 3 ∧
+    (calculateScore cfg ext .ascii [97, 120, 98] [97, 98] 0 3) = (16 + 2 * 10 - 3 + 16, [0, 2]) := by
+  decide
 end NucleoVerif
